@@ -102,6 +102,9 @@ def case_strategy(draw: Any, carrier: str) -> Dict[str, Any]:
             ["client_first", "client_first", "server_first", "simultaneous", "abrupt_eof",
              "abrupt_reset"] + (["simultaneous_stalled"] * 2 if carrier == "h2" else
                                 ["client_first_drop", "client_first_eof"])))
+        # how an abruptly lost peer shows on the socket (reset, no route, time-out, ...)
+        app["reset_how"] = draw(st.sampled_from(["reset", "reset", "unreach", "netdown",
+                                                 "timedout", "aborted"]))
         app["client_code"] = draw(st.sampled_from([1000, 1001, 3001, 4999, None]))
         app["server_code"] = draw(st.sampled_from([1000, 1001, 3000, 4000]))
     elif decision == "http":
@@ -220,7 +223,7 @@ async def scenario(env: Any, case: Dict[str, Any]) -> Any:
             ws.conn.eof()
         else:
             await env.sleep(0.5)
-            ws.conn.reset()
+            ws.conn.reset(a.get("reset_how", "reset"))
         await env.settle(50.0)
         await ws.pump()
     await env.settle(50.0)
